@@ -47,15 +47,47 @@ let xscenario c =
       XRead { rd_fam = f; rd_via = via; rd_acc = a; rd_stored = st; rd_default = d }
   | _ -> XOld (scenario c)
 let pxobs = function OOld o -> pobs o | ORead None -> ":fail" | ORead (Some r) -> prval r
-let run_line ts = let c = { rest = ts } in let s = xscenario c in
+(* ---- re-used value objects:  :ru <box> <family> <nA> <stored value>*nA <nB> <stored value>*nB
+   object A (in the box) receives the nA stores in order, object B (a MockNamedValue) the nB stores; doubles by bit pattern ---- *)
+let sval c =
+  match next c with
+  | ":b" -> SBool (bool_tok (next c))
+  | ":i" -> let t = ity_of (int_tok (next c)) in SInt (t, z_tok (next c))
+  | ":d" -> let d = z_tok (next c) in let t = z_tok (next c) in SDbl (d, t)
+  | ":s" -> SStr (optbytes_tok (next c))
+  | ":p" -> SPtr (z_tok (next c))
+  | ":cp" -> SCPtr (z_tok (next c))
+  | ":f" -> SFun (z_tok (next c))
+  | ":m" -> SMem (bytes_tok (next c))
+  | t -> raise (Bad ("stored value tag " ^ t))
+let box_of = function ":named" -> BNamed | ":ret" -> BReturn | ":retc" -> BReturnC | ":data" -> BData | ":datac" -> BDataC | t -> raise (Bad ("box " ^ t))
+let rec split_last = function [] -> raise (Bad "no store") | [x] -> ([], x) | x :: r -> let (b, l) = split_last r in (x :: b, l)
+let zscenario c =
+  match peek c with
+  | Some ":ru" -> ignore (next c);
+      let b = box_of (next c) in
+      let f = fam_of (next c) in
+      let (ba, la) = split_last (counted c sval) in
+      let (bb, lb) = split_last (counted c sval) in
+      ZReuse { ru_box = b; ru_fam = f; ru_before = ba; ru_last = la; ru_obefore = bb; ru_other = lb }
+  | _ -> ZOld (xscenario c)
+let probs o = String.concat " " ([pbool o.q_ab; pbool o.q_ba] @ List.map (function None -> ":fail" | Some r -> prval r) o.q_get)
+let run_line ts = let c = { rest = ts } in let s = zscenario c in
   if not (at_end c) then raise (Bad "trailing tokens") else
-  if not (x_valid s) then raise (Bad "invalid scenario: value out of range of its type / window outside the arena / accessor not offered / default not of the accessor's type")
-  else pxobs (x_run s)
-let spec_line ts os = let c = { rest = ts } in let s = xscenario c in
+  if not (z_valid s) then raise (Bad "invalid scenario: value out of range of its type / window outside the arena / accessor not offered / default not of the accessor's type / the box has no setter for a stored value")
+  else (match z_run s with PObs o -> pxobs o | PReuse o -> probs o)
+let spec_line ts os = let c = { rest = ts } in let s = zscenario c in
   match s with
-  | XRead _ -> (match os with
-      | [":fail"] -> x_spec s (ORead None)
-      | _ -> let oc = { rest = os } in let r = rval oc in at_end oc && x_spec s (ORead (Some r)))
-  | XOld _ -> (match os with
-      | ab :: ba :: gs -> x_spec s (OOld { o_ab = bool_tok ab; o_ba = bool_tok ba; o_get = List.map (fun g -> if g = "~" then None else Some (z_tok g)) gs })
+  | ZReuse _ -> (match os with
+      | ab :: ba :: gs ->
+          let oc = { rest = gs } in
+          let rec reads () = if at_end oc then [] else
+            (if peek oc = Some ":fail" then (ignore (next oc); None :: reads ()) else (let r = rval oc in Some r :: reads ())) in
+          z_spec s (PReuse { q_ab = bool_tok ab; q_ba = bool_tok ba; q_get = reads () })
+      | _ -> false)
+  | ZOld (XRead _) -> (match os with
+      | [":fail"] -> z_spec s (PObs (ORead None))
+      | _ -> let oc = { rest = os } in let r = rval oc in at_end oc && z_spec s (PObs (ORead (Some r))))
+  | ZOld (XOld _) -> (match os with
+      | ab :: ba :: gs -> z_spec s (PObs (OOld { o_ab = bool_tok ab; o_ba = bool_tok ba; o_get = List.map (fun g -> if g = "~" then None else Some (z_tok g)) gs }))
       | _ -> false)
